@@ -145,6 +145,67 @@ fn verif_pure_file_hash()
     t.done();
 }
 
+/*  C15: "the hash of a directory changes when any contained name or content changes": for a few directory trees, every
+    single-point change (rename of a file or directory at any depth, change of a file's bytes at any depth, a file added or removed
+    at any depth) gives a different directory hash; the same tree built again gives the same hash */
+fn make_tree(files: &Vec<(String, String)>) -> FakeSystem
+{
+    let mut system = FakeSystem::new(10);
+    for (path, content) in files.iter()
+    {
+        let parts : Vec<&str> = path.split('/').collect();
+        let mut dir = String::new();
+        for d in parts[..parts.len() - 1].iter() { if !dir.is_empty() { dir.push('/'); } dir.push_str(d); if !system.is_dir(&dir) { system.create_dir(&dir).unwrap(); } }
+        let mut f = system.create_file(path).unwrap(); f.write_all(content.as_bytes()).unwrap();
+    }
+    system
+}
+fn dir_hash(files: &Vec<(String, String)>) -> Option<Ticket>
+{
+    let system = make_tree(files);
+    guard(|| TicketFactory::from_directory(&system, "out").ok().map(|mut f| f.result())).flatten()
+}
+#[test]
+fn verif_pure_dir_hash()
+{
+    quiet();
+    let mut t = Tally::new("B-A-dir-hash");
+    let f = |p: &str, c: &str| (p.to_string(), c.to_string());
+    let trees : Vec<Vec<(String, String)>> = vec![
+        vec![f("out/a.txt", "A"), f("out/b.txt", "B")],
+        vec![f("out/a.txt", "A"), f("out/sub/a.txt", "SA"), f("out/sub/c.txt", "SC")],
+        vec![f("out/m.txt", "M"), f("out/sub/deep/x.txt", "X"), f("out/sub/deep/y.txt", "Y"), f("out/sub/k.txt", "K"), f("out/zub/x.txt", "X")],
+    ];
+    for tree in trees.iter()
+    {
+        t.case();
+        let base = match dir_hash(tree) { Some(h) => h, None => { t.wrong(&format!("{:?}", tree), "from_directory failed or panicked"); continue; } };
+        if dir_hash(tree) != Some(base.clone()) { t.wrong(&format!("{:?}", tree), "the same tree hashed twice gives two hashes"); }
+        for i in 0..tree.len()
+        {
+            let (path, content) = tree[i].clone();
+            let dir : String = path.rsplitn(2, '/').nth(1).unwrap().to_string();
+            let mut variants : Vec<(String, Vec<(String, String)>)> = vec![];
+            /*  rename the file (two new names: one sorting last in its directory, one keeping its place) */
+            for new_name in ["zzz.txt", "a0.txt"].iter() { let mut v = tree.clone(); v[i].0 = format!("{}/{}", dir, new_name); variants.push((format!("rename {} to {}/{}", path, dir, new_name), v)); }
+            /*  change its bytes */
+            { let mut v = tree.clone(); v[i].1 = format!("{}!", content); variants.push((format!("change the bytes of {}", path), v)); }
+            /*  remove it (unless that empties the tree) */
+            if tree.len() > 1 { let mut v = tree.clone(); v.remove(i); variants.push((format!("remove {}", path), v)); }
+            /*  add a sibling */
+            { let mut v = tree.clone(); v.push((format!("{}/new.txt", dir), "N".to_string())); variants.push((format!("add {}/new.txt", dir), v)); }
+            /*  rename the directory it is in (below the root) */
+            if dir != "out" { let mut v = tree.clone(); let nd = format!("{}_", dir); for e in v.iter_mut() { if e.0.starts_with(&format!("{}/", dir)) { e.0 = format!("{}{}", nd, &e.0[dir.len()..]); } } variants.push((format!("rename directory {} to {}", dir, nd), v)); }
+            for (what, v) in variants.iter()
+            {
+                t.case();
+                match dir_hash(v) { Some(h) => if h == base { t.wrong(&format!("{:?}", tree), &format!("{}: the directory hash does not change", what)); }, None => t.wrong(&format!("{:?}", v), "from_directory failed or panicked") }
+            }
+        }
+    }
+    t.done();
+}
+
 fn sv(v: &[&str]) -> Vec<String> { v.iter().map(|s| s.to_string()).collect() }
 
 #[test]
@@ -153,8 +214,8 @@ fn verif_pure_rule_identity()
     quiet();
     let mut t = Tally::new("B-B-rule-identity");
     /*  a small universe of parser-producible rules, including adversarial near-misses */
-    let lists : Vec<Vec<String>> = vec![sv(&["a"]), sv(&["ab"]), sv(&["a", "b"]), sv(&["b", "a"]), sv(&["a", "bc"]), sv(&["ab", "c"]), sv(&["a:", "b"]), sv(&["a", ":b"]), sv(&["a b"]), sv(&["a", "b", "c"])];
-    let cmds : Vec<Vec<String>> = vec![sv(&["cp", "-r", "a", "backup"]), sv(&["cp", "-ra", "backup"]), sv(&["cp -r a backup"]), sv(&["mycat", "a", "b", "out"]), sv(&["mycat", "ab", "out"]), sv(&["x", ":", "y"]), sv(&["x", "y"])];
+    let lists : Vec<Vec<String>> = vec![sv(&["a"]), sv(&["ab"]), sv(&["a", "b"]), sv(&["b", "a"]), sv(&["a", "bc"]), sv(&["ab", "c"]), sv(&["a:", "b"]), sv(&["a", ":b"]), sv(&["a b"]), sv(&["a", "b", "c"]), sv(&["a "]), sv(&["a\t"]), sv(&[" a"])];
+    let cmds : Vec<Vec<String>> = vec![sv(&["cp", "-r", "a", "backup"]), sv(&["cp", "-ra", "backup"]), sv(&["cp -r a backup"]), sv(&["mycat", "a", "b", "out"]), sv(&["mycat", "ab", "out"]), sv(&["x", ":", "y"]), sv(&["x", "y"]), sv(&["x ", "y"]), sv(&["x", "y "])];
     let mut rules : Vec<Rule> = vec![];
     for tg in lists.iter() { for sr in lists.iter() { for c in cmds.iter() { rules.push(Rule::new(tg.clone(), sr.clone(), c.clone())); } } }
     let key = |r: &Rule| { let mut a = r.targets.clone(); a.sort(); let mut b = r.sources.clone(); b.sort(); (a, b, r.command.clone()) };
@@ -290,7 +351,7 @@ fn verif_pure_bundle()
 {
     quiet();
     let mut t = Tally::new("B-P-bundle-meaning");
-    let tokens = ["gen", "lib", "\tparser.c", "\tlexer.c", "\t\tdeep.c", "\tsub", ""];
+    let tokens = ["gen", "lib", "\tparser.c", "\tlexer.c", "\t\tdeep.c", "\tsub", "", "gen\t", "\tparser.c\t"];
     for len in 1..=5usize
     {
         let total = tokens.len().pow(len as u32);
